@@ -58,9 +58,13 @@ def pdict(s, params):
 def rand_buffer(rng, m, s, params, maxlen=72):
     """A buffer biased towards Ok structures, then possibly damaged."""
     k = rng.random()
+    # size the buffer to the structure: its size over an all-zero 320-byte buffer is a usable estimate
+    probe = refsem.view(m, s.name, pdict(s, params), bytearray(320)).size()
+    if known(probe) and maxlen < probe <= 300:
+        maxlen = probe + 8
     n = rng.choice([0, 1, 2, 3, 4, 6, 8, 12, 16, 24, 32, 48, maxlen])
     if k < 0.5:
-        data = bytearray(refsem.encode_random(m, s.name, pdict(s, params), rng, max(n, rng.choice([16, 32, 48, maxlen]))))
+        data = bytearray(refsem.encode_random(m, s.name, pdict(s, params), rng, max(n, rng.choice([16, 32, 48, maxlen, maxlen]))))
         v = refsem.view(m, s.name, pdict(s, params), data)
         sz = v.size()
         r = rng.random()
@@ -172,3 +176,44 @@ def classify_obs_diffs(m, s, diffs):
                     if e < 0 and g > 0 and (g - e) & (g - e - 1) == 0:
                         return "signed-enum-narrow-field-zero-extended"
     return "observation-differs:" + diffs[0][0].rsplit(".", 1)[-1]
+
+
+def signed_enum_taint(m, s, params, data):
+    """True when some present field of a signed enum that is narrower than the
+    enum's C++ underlying type holds a negative value (model view): everything
+    the implementation derives from it is off (known finding)."""
+    from vlib.refsem import ArrayView, ScalarView, StructView
+
+    def walk(v, depth=0):
+        if depth > 4:
+            return False
+        for f in v.s.all_named_fields():
+            if f.kind == "virtual" or v.has(f) is not True:
+                continue
+            fv = v.field_view(f)
+            if scan(fv, depth):
+                return True
+        return False
+
+    def scan(fv, depth):
+        if isinstance(fv, ScalarView):
+            # read side: zero-extension when the field is narrower than the underlying type; write side
+            # (text read-back, copies through fields): negative values are refused whenever the field is
+            # narrower than its bit container's value type, i.e. for any enum member of a `bits` block
+            if fv.t.kind == "enum" and fv.t.ref.signed() and fv.is_complete() and (
+                    fv.nbits < enum_underlying_bits(fv.t.ref) or isinstance(fv.store, refsem.BitStore)):
+                ok, val = fv.read()
+                return ok is True and val < 0
+            return False
+        if isinstance(fv, StructView):
+            return (not fv.store.null) and walk(fv, depth + 1)
+        if isinstance(fv, ArrayView):
+            c = fv.count()
+            if known(c):
+                return any(scan(fv.element(i), depth + 1) for i in range(min(c, 6)))
+        return False
+
+    try:
+        return walk(refsem.view(m, s.name, pdict(s, params), bytearray(data)))
+    except Exception:
+        return False
